@@ -566,10 +566,13 @@ func runC18(c *Ctx) {
 		"validity = zneed set and not bad-*: generated so that configs valid only with the file, valid only without it, never valid and always valid all occur; " +
 		"error kinds: no path (ConfigPath false), missing file, syntax error, type error, unknown extension (nil decoder), unparsable environment value, unparsable flag; " +
 		"with watching: 1-3 atomic rewrites (valid, invalid, valid again) awaited by polling (10 s deadline). " +
+		"plus a stream with an embedded struct in the config, a YAML file and Params.FlattenAnonymousFields through YAMLConfigEnvFlag / FileExtensionDecoderConfigEnvFlag / ConfigFileEnvFlagDecoderFactoryParams(DecoderFromExtensionWithParams): per leaf any subset of {default, file, environment, flag}, configs valid only with the file. " +
 		"non-trivial: ez reached the file and the file changes the stack (full != file-less) — distinct by (format, variant, watch, per-leaf layer subsets, kind)"
 	n := c.scale(2500, 30000)
 	if c.Prop != "C18" {
 		n = c.scale(250, 3000)
+	} else {
+		c18Embedded(c, c.scale(300, 4000))
 	}
 	root := filepath.Join(c.WorkDir, "c18files")
 	if c.WorkDir == "" {
